@@ -54,6 +54,10 @@ CHECKS = {
    "bounded-exhaustive enumeration of expression trees on boundary operands (each printed with minimal parentheses and fully parenthesised) against an exact i128 evaluator; exhaustive enumeration of all short strings for totality",
    "All expression trees of depth <= 1 over 18 binary value operators, 11 assignment forms, 4 prefix operators, prefix/postfix ++/--, and ?: on 20 boundary operands (0,1,2,3,5,61..65,2^31,2^32+1,2^62,2^63-1,2^63,-1,-(2^63-1), variables a,b in 5 environments, unset u), a depth-2 slice (thorough: all depth-1 trees as operands; plus a pruned depth 3), and all pairs of binary operators in both association shapes; each tree is evaluated by yash_arith::eval once with the minimal parentheses C precedence/associativity requires and once fully parenthesised. The exact i128 model decides the value, or that the result must be an error (overflow, /0, %0, MIN/-1, MIN%-1, shift count <0 or >=64, shifting a negative value or into the sign bit); short-circuit operands are planted with assignments and 1/0 and must leave no trace; variable side effects are compared. $((x)) and $(($x)) are compared for decimal/octal/hex/signed spellings, also through the whole shell. Every string of length <= 4 over 26 token characters (475k) must not panic; lengths <= 2 (quick) / 3 (thorough) also go through the whole shell, whose error path slices the source by byte ranges.",
    "i128 evaluator trusted; right shift of negatives and unsequenced modify+read are skipped as unspecified."),
+ "C04": ("exploration", "DESIGN.md §3 C04",
+   "bounded-exhaustive enumeration of (pattern, string) pairs in every anchoring/greediness configuration against a naive backtracking matcher with its own XCU 2.14 parser; case/trim forms through the whole shell in every quoting style",
+   "(i) every character sequence of length <= 4 (quick) / 5 (thorough) over {a b . - * ? [ ] ! ^ \\ : =} read with backslash escapes, and every Literal/Normal marking of sequences of length <= 3, against every string of length <= 3 over {a b . - ] [ ^ \\ : é}, in all four anchorings (is_match) and, for patterns <= 3, find/rfind with shortest/longest in the combinations # ## % %% use; (ii) every sequence of <= 3 (quick) / 4 (thorough) units where a unit is one of those characters or a whole inner bracket element [.c.] / [=c=] for 14 characters (incl. all regex-special ones), [:alpha:], [:punct:] — needed because the shortest pattern with a collating symbol already has 7 characters; (iii) 268 scripts through the whole shell: each special character quoted as 'c', \\c, \"c\" / \"\\c\", \"$v\" in case patterns and in # % ## %% trims must match only itself, first-match rule of case, quoted vs unquoted expansion results, shortest/longest prefix/suffix. 52M (quick) pairs; the reference matcher decides by brute force over substrings.",
+   "Reference parser/matcher trusted; reversed ranges, classes/multi-character symbols as range endpoints, undefined classes and a trailing lone backslash are unspecified and skipped."),
 }
 
 NOT_YET = {
